@@ -22,7 +22,7 @@ REQUIRED = ["prep_checked:dominion", "prep_checked:hart", "prep_rejections_check
             "manifest_row_labels_not_0_to_n", "manifest_row_labels_not_0_to_n_and_no_phantom_batch",
             "second_lookup_in_same_manifest", "cvr_identifiers_with_zero_padded_card_numbers",
             "sampled_phantom_cvrs_with_another_identifier_prefix", "lookups_with_repeated_sample_numbers", "manifest_columns_not_in_canonical_order",
-            "manifest_counts_stored_unsigned_narrow_or_float"]
+            "manifest_counts_stored_unsigned_narrow_or_float", "manifest_already_carries_a_cumulative_count_column"]
 ASSUMPTIONS = ["unique (tabulator, batch) labels per manifest", "Dominion lookup is 1-based, Hart lookup 0-based, as each "
                "vendor module documents and its test pins", "phantom CVR ids use the documented prefix 'phantom-1-'"]
 N_CASES = {"quick": 8000, "thorough": 64000}
@@ -76,6 +76,14 @@ def frames(case, vendor):
         df = df[cols]
         if cm == "extra":
             df.insert(0, "Notes", ["" for _ in sizes])
+    if case.get("stale_cum"):
+        # the manifest already carries a cumulative-count column from earlier processing (computed before batches were
+        # dropped or re-ordered, or simply by another tool): preparation must work from the batch sizes it is given
+        tot, acc = 0, []
+        for sz in reversed(sizes):
+            tot += sz + 1
+            acc.append(tot)
+        df["cum_cards"] = acc
     mode = case.get("index_mode", "default")
     if mode == "offset":
         df.index = range(3, 3 + len(sizes))
@@ -112,6 +120,7 @@ def run_shard(spec, rec):
         case["col_mode"] = rng.choice(("canonical", "canonical", "shuffled", "extra"))
         case["count_dtype"] = rng.choice((None, None, "uint64", "uint8", "int32", "float64"))
         case["phantom_prefix"] = rng.choice(("phantom-1-", "phantom-1-", "ph-1-", "Phantom-2-"))
+        case["stale_cum"] = rng.random() < 0.15
         run_case(case, rec)
 
 
@@ -140,6 +149,8 @@ def run_case(case, rec):
         rec.count("manifest_columns_not_in_canonical_order")
     if case.get("count_dtype"):
         rec.count("manifest_counts_stored_unsigned_narrow_or_float")
+    if case.get("stale_cum"):
+        rec.count("manifest_already_carries_a_cumulative_count_column")
     if case.get("index_mode", "default") != "default":
         rec.count("manifest_row_labels_not_0_to_n" + ("_and_no_phantom_batch" if bound == total else ""))
     tabcol, batchcol, sizecol = (("Tabulator Number", "Batch Number", "Total Ballots") if vendor == "dominion"
@@ -160,6 +171,9 @@ def run_case(case, rec):
     want_rows = len(sizes) + (1 if bound > total else 0)
     if len(man) != want_rows:
         rec.violation("c17.prep", f"{vendor}:phantom_batch_iff_bound_exceeds_total", {"rows": len(man), "want": want_rows})
+        return
+    if any(v != v for v in man["cum_cards"]):
+        rec.violation("c17.prep", f"{vendor}:cumulative_count_does_not_end_at_bound", {"cum": [float(v) for v in man["cum_cards"]], "bound": bound})
         return
     cum = [int(v) for v in man["cum_cards"]]
     if cum[-1] != bound or cum != list(np.cumsum(sizes + ([bound - total] if bound > total else []))):
